@@ -426,6 +426,14 @@ package resolver
 //@   assert at call middleware/resolver/dnssec.KeyTag#1: arg0 != revokedKey && arg0.Flags == old(revokedKey.Flags) & 65407 && arg0.Algorithm == old(revokedKey.Algorithm) && arg0.Protocol == old(revokedKey.Protocol) && arg0.PublicKey == old(revokedKey.PublicKey) && revokedKey.Flags == old(revokedKey.Flags)
 //@   assert at return: result == lastret("middleware/resolver/dnssec.KeyTag")
 //@
+//@ # keys minus the excluded ones: what is kept was not excluded
+//@ func withoutKeys
+//@   abstract
+//@   nosafety all pre
+//@   assert at return#1: result == keys && len(excluded) == 0
+//@   assert at append#1: !excluded[k]
+//@   assert at return#2: result == out
+//@
 //@ # authentication of a fetched DNSKEY set: full authentication only by pass 1 (currently trusted, non-revoked keys);
 //@ # pass 2 (revoked forms of trusted keys, matched by material) yields revocation-only authentication; nothing else
 //@ # authenticates; a work-limit error is terminal
@@ -435,7 +443,12 @@ package resolver
 //@   assert at append#2: lastret("middleware/resolver.sameKeyExceptRevoke") && src[0] == dnskey
 //@   assert at call middleware/resolver.unrevokedKeyTag#1: arg0 == dnskey
 //@   assert at call middleware/resolver.sameKeyExceptRevoke#1: arg1 == dnskey
-//@   assert at call middleware/resolver/dnssec.VerifyRRSIGWithWork#1: arg1 == currentKeys && arg3 == work
+//@   assert at call middleware/resolver/dnssec.VerifyRRSIGWithWork#1: arg1 == lastret("middleware/resolver.withoutKeys") && arg3 == work
+//@   # "one authenticated only by a revoked key can do nothing but complete that revocation": an anchor whose revoked
+//@   # form is in the fetched RRset is taken out of the keys that can FULLY authenticate it - a signature made with its
+//@   # private half counts for pass 2 (revocation only) whatever tag it is labelled with
+//@   assert at call middleware/resolver.withoutKeys#1: arg0 == currentKeys && arg1 == revokedNow
+//@   assert at mapupdate#3: themap == revokedNow && value && lastret("middleware/resolver.sameKeyExceptRevoke")
 //@   assert at call middleware/resolver/dnssec.VerifyRRSIGWithWork#2: arg1 == revokedBootstrap && arg3 == work && !lastret("middleware/resolver/dnssec.VerifyRRSIGWithWork#1")
 //@   assert at return#3: result0 && !result1 && result2 == nil && lastret("middleware/resolver/dnssec.VerifyRRSIGWithWork#1")
 //@   assert at return#5: result0 && result1 && result2 == nil && lastret("middleware/resolver/dnssec.VerifyRRSIGWithWork#2") && !lastret("middleware/resolver/dnssec.VerifyRRSIGWithWork#1")
